@@ -150,7 +150,10 @@ pub fn one_run(cfg: &Cfg, rc: &RunCfg, acc: &mut Acc) -> RunOut {
                 }
                 cands.push(rec);
             }
-            cands.sort_by_key(|c| (c.1.is_some(), c.4));     // prefill events (no producer thread) come first, then by publication
+            // prefill events (no producer thread) come first, then by the start of the send call: slots are taken in call order, and a
+            // later send finds the earlier one's slot already counted in its sampled length -- so the earliest stuck send is the cause
+            // (ordering by the wake-decision stamp would misattribute when a producer is preempted between publication and decision)
+            cands.sort_by_key(|c| (c.1.is_some(), c.2));
             let (id, prod, t0, _t1, _tp, len, wakes) = cands[0].clone();
             let entry = prod.map(|p| cfg.entries[p].name()).unwrap_or("send(prefill)");
             let mut sig = J::obj()
